@@ -356,10 +356,8 @@ func (w *world) diffChannelDeep(h handles, c *simChan, st *mstate, tp *simkit.Ta
 	if m := w.diffCompat(h, c, st); m != nil {
 		return m
 	}
-	if c.fl == flExact {
-		return w.diffExact(h, c, st)
-	}
-	return nil
+	// the exact frontier must be readable, or refused (fail closed), on every flavour
+	return w.diffExact(h, c, st)
 }
 
 // diffCompat reads the channel through the compatibility surface.
@@ -440,6 +438,9 @@ func (w *world) diffExact(h handles, c *simChan, st *mstate) *mismatch {
 		want.Manifest = st.props[tail].manifest
 		want.TailIdentity = st.props[tail].entries[len(st.props[tail].entries)-1]
 	}
+	if c.fl != flExact && st.leo == 0 && fr == want {
+		return nil
+	}
 	if fr != want {
 		return mm("frontier-mismatch", "value", "LoadDurableFrontier(%s) = leo %d hw %d cmd %x, model leo %d hw %d cmd %x", c.key, fr.LEO, fr.Committed, fr.Manifest.CommandID[:10], want.LEO, want.Committed, want.Manifest.CommandID[:10])
 	}
@@ -470,6 +471,31 @@ func (w *world) diffExact(h handles, c *simChan, st *mstate) *mismatch {
 		got, ok, err := h.store.LoadDurableProposal(w.ctx, p.manifest.CommandID, 64, 1<<24)
 		if err != nil || !ok || got.Manifest != p.manifest || len(got.Records) != len(p.rows) {
 			return mm("frontier-mismatch", "proposal", "LoadDurableProposal(%s,%x) ok %v err %v records %d, model %d", c.key, p.manifest.CommandID[:10], ok, err, len(got.Records), len(p.rows))
+		}
+	}
+	// donor page over the live proposals (what a recovering peer would fetch)
+	first := -1
+	for i, p := range st.props {
+		if _, live := st.rowAt(p.manifest.BaseOffset + 1); live {
+			first = i
+			break
+		}
+	}
+	if c.fl == flExact && first >= 0 && st.leo-st.props[first].manifest.BaseOffset <= 256 {
+		from := st.props[first].manifest.BaseOffset + 1
+		page, err := h.store.ReadDurableRecoveryPage(w.ctx, DurableRecoveryPageRequest{From: from, Through: st.leo, MaxBytes: 1 << 26})
+		if err != nil {
+			return mm("frontier-mismatch", "recovery-page", "ReadDurableRecoveryPage(%s,%d..%d): %v", c.key, from, st.leo, err)
+		}
+		wantRows := st.rowsFrom(from)
+		if len(page.Records) != len(wantRows) || len(page.Entries) != len(wantRows) || page.DurableFrontier != want {
+			return mm("frontier-mismatch", "recovery-page", "ReadDurableRecoveryPage(%s,%d..%d) returned %d records %d entries leo %d, model %d rows leo %d", c.key, from, st.leo, len(page.Records), len(page.Entries), page.LEO, len(wantRows), want.LEO)
+		}
+		for i, rec := range page.Records {
+			id, _ := st.identityAt(wantRows[i].Seq)
+			if rec.Index != wantRows[i].Seq || rec.ID != wantRows[i].ID || !page.Entries[i].Present || page.Entries[i].Identity != id || rec.Epoch != id.ChannelEpoch {
+				return mm("frontier-mismatch", "recovery-page", "ReadDurableRecoveryPage(%s)[%d] = index %d id %d epoch %d, model row %v", c.key, i, rec.Index, rec.ID, rec.Epoch, wantRows[i])
+			}
 		}
 	}
 	for _, p := range c.retired {
@@ -710,6 +736,9 @@ func (w *world) checkCrashPoints() {
 	}
 	for _, cp := range points {
 		w.r.ProbeN("crash_points", 1)
+		if i := strings.IndexByte(cp.kind, ':'); i >= 0 {
+			w.r.Probe("crash_point_in." + cp.kind[i+1:])
+		}
 		for mode := 0; mode < crashModes; mode++ {
 			if w.stop() {
 				return
